@@ -276,14 +276,15 @@ Print Assumptions C03_arena_compose_prune_nonvacuous.
      wne t, mir_ne o  : no FeasibleWitness state with an empty list, no mirror answer Some [] (what keeps
                         assert!(!solution.is_empty()) of phase_inh quiet)
    Conclusion: no panic, at most csize t + 1 iterations (the fuel length a + 1 of aelim suffices), the same LP / mirror
-   call counts, the returned arena holds fst (elim o tol t) with surviving nodes under their old indices, and every
-   cell outside the old tree is untouched. *)
+   call counts, the returned arena holds fst (elim o tol t) with surviving nodes under their old indices, every cell
+   outside the old tree is untouched, and every index of the old tree that is not in the result is vacant. *)
 From AT Require AElim AElimBase AElimRefine AElimExample.
 Theorem C03_arena_elim_refines : forall o tol a r t,
   AElimBase.mir_ne o -> AElimBase.arena_tree a r t -> AElimBase.wne t ->
   exists a', AElim.aelim o tol a r = Some (a', snd (elim o tol t)) /\
              AElimBase.arena_tree a' r (fst (elim o tol t)) /\
-             (forall j, ~ In j (AElimBase.idxs t) -> aget a' j = aget a j).
+             (forall j, ~ In j (AElimBase.idxs t) -> aget a' j = aget a j) /\
+             (forall j, In j (AElimBase.idxs t) -> ~ In j (AElimBase.idxs (fst (elim o tol t))) -> aget a' j = None).
 Proof. exact AElimRefine.aelim_refines. Qed.
 (* the same through the abstraction function cabs of Pwl/Elim.v and the executable link check *)
 Theorem C03_arena_elim_refines_cabs : forall o tol a r fuel t, AElimBase.mir_ne o ->
@@ -297,7 +298,8 @@ Theorem C03_arena_elim_run : forall o tol a r t, AElimBase.mir_ne o -> AElimBase
     AElim.m_k c = snd (elim o tol t) /\
     AElim.ae_final (AElim.m_rem c) (AElim.m_ar c) = Some a' /\
     AElimBase.arena_tree a' r (fst (elim o tol t)) /\
-    (forall j, ~ In j (AElimBase.idxs t) -> aget a' j = aget a j).
+    (forall j, ~ In j (AElimBase.idxs t) -> aget a' j = aget a j) /\
+    (forall j, In j (AElimBase.idxs t) -> ~ In j (AElimBase.idxs (fst (elim o tol t))) -> aget a' j = None).
 Proof. exact AElimRefine.aelim_run. Qed.
 (* with C03_elim_preserves: the function represented by the arena the machine returns *)
 Theorem C03_arena_elim_preserves : forall o tol a r t x,
